@@ -328,7 +328,12 @@ func (g *docGen) render(n *cnode) string {
 	case "PRE":
 		return g.wrap("pre", g.layoutStyle(), g.kidsHTML(n))
 	case "HID":
-		switch g.pick("div", "p", "section", "div", "figure", "tweet") {
+		switch g.pick("div", "p", "section", "div", "figure", "tweet", "figcap", "figcap") {
+		case "figcap":
+			// a visible figure whose caption sits in a hidden part of it (a collapsed credit line, a caption a script reveals)
+			link := g.pick("", ` <a href="/lnk/c`+fmt.Sprint(g.marker())+`.html">`+g.words(1)+`</a> `)
+			wrapTag := g.pick("div", "span", "div")
+			return fmt.Sprintf(`<figure><img src="/i/m%d.png"><%s%s><figcaption>%s%s</figcaption></%s></figure>`, g.marker(), wrapTag, g.hideAttr(), g.kidsHTML(n), link, wrapTag)
 		case "figure":
 			// the hidden element is itself one an embed extractor recognises
 			return fmt.Sprintf(`<figure%s%s><img src="/i/m%d.png"><figcaption>%s</figcaption></figure>`, g.hideAttr(), g.noiseAttrs(), g.marker(), g.kidsHTML(n))
